@@ -39,8 +39,9 @@ impl Fails {
 }
 
 /// `raw_times`: transition instants read from the raw bytes (may be empty).
-/// `heavy`: walk 50 items of both iterators from the first/last four own
-/// transitions (else from all of them - light zones have few).
+/// `heavy` (zones from untrusted TZif bytes): every own transition is probed;
+/// else the first and last six. 50 items of both iterators are walked from
+/// the first/last four probed transitions, two items from each of the others.
 pub fn battery(tz: &TimeZone, raw_times: &[i64], heavy: bool) -> Vec<(String, String)> {
     let min = Timestamp::MIN.as_nanosecond();
     let max = Timestamp::MAX.as_nanosecond();
@@ -65,6 +66,13 @@ pub fn battery(tz: &TimeZone, raw_times: &[i64], heavy: bool) -> Vec<(String, St
     trans.retain(|x| *x >= min && *x <= max);
     trans.sort_unstable();
     trans.dedup();
+
+    // Zones that come from text (POSIX rules, named zones: `heavy` is false)
+    // repeat the same rule every year: their own transitions are probed at
+    // the first six and the last six (the ends of the range); zones built
+    // from untrusted TZif bytes are probed at every one.
+    let all_trans = trans;
+    let trans: Vec<i128> = if !heavy && all_trans.len() > 12 { all_trans[..6].iter().chain(all_trans[all_trans.len() - 6..].iter()).copied().collect() } else { all_trans };
 
     // instants
     let mut tss: Vec<i128> = vec![min, min + 1, min + NS, -NS, -1, 0, 1, NS, max - NS, max - 1, max];
@@ -160,7 +168,12 @@ pub fn battery(tz: &TimeZone, raw_times: &[i64], heavy: bool) -> Vec<(String, St
     }
 
     // iterators from own transitions
-    let pick: Vec<i128> = if heavy && trans.len() > 8 { trans[..4].iter().chain(trans[trans.len() - 4..].iter()).copied().collect() } else { trans.clone() };
+    // the long walks start from the first four and the last four own
+    // transitions (where the ends of the representable range are); two items
+    // from every other one. (A rule zone repeats every year, so the same rule
+    // applied to the light battery costs nothing in reach and makes the
+    // battery ~10x cheaper, which pays for many more accepted inputs.)
+    let pick: Vec<i128> = if trans.len() > 8 { trans[..4].iter().chain(trans[trans.len() - 4..].iter()).copied().collect() } else { trans.clone() };
     for &t in &trans {
         let (a, b) = (ts((t + NS).min(max)).unwrap(), ts((t - NS).max(min)).unwrap());
         let k = if pick.contains(&t) { 50 } else { 2 };
